@@ -182,6 +182,11 @@ class Built:
             cls.__module__ = __name__
             self._hooks(cls, c)
             return cls
+        if c['kind'] == 'mixin':
+            cls = type(name, bases or (object,), {})
+            cls.__module__ = __name__
+            self._hooks(cls, c)
+            return cls
         if c['kind'] in ('strlike', 'userstring', 'ystring'):
             rejects = set(c['rejects'])
             if c['kind'] == 'strlike':
@@ -249,7 +254,12 @@ class Built:
             or 'object', '\n'.join(body))
         for i, b in enumerate(bases):
             ns['_base%d' % i] = b
-        if c['abstract'] and not bases:
+        if c.get('absflavor') == 'abc_second' and not bases:
+            import abc
+            ns['_base0'] = type('_VerifMixin', (), {})
+            ns['_base1'] = abc.ABC
+            src = src.replace('(object)', '(_base0, _base1)')
+        elif c['abstract'] and not bases:
             import abc
             ns['_base0'] = abc.ABC
             src = src.replace('(object)', '(_base0)')
